@@ -163,6 +163,7 @@ struct GenOpt {
   bool extras = true;       // helices, sheets, seqres, links, ncs, ...
   bool no_segment = false;  // mmCIF has no segment id
   bool same_models = false; // all models hold the same chains/residues/atoms (only coordinates differ)
+  bool link_ids = false;    // Refmac link ids on connections (a PDB file carries them only in LINKR records)
 };
 
 inline int pick_seqnum(Rng& r, int prev) {
@@ -459,6 +460,11 @@ inline Structure gen_structure(uint64_t seed, const GenOpt& g) {
       bool metal = is_metal(c1.atom->element.elem) || is_metal(c2.atom->element.elem);
       c.type = metal ? Connection::MetalC : Connection::Covale;
       c.name = metal ? "metalc" + std::to_string(++metalc) : "covale" + std::to_string(++covale);
+      // Refmac link id (written only as LINKR, option use_linkr) and the same-asu / other-asu restriction of the partner
+      if (g.link_ids && r.chance(60)) c.link_id = r.pick(std::vector<std::string>{"ALA-GLY", "SS", "X1", "TRANS", "LINK8CHR"});
+      // (find_nearest_image(.., Asu::Different) looks at symmetry mates and at the NEAREST lattice copy only: without
+      // symmetry operations it may find no partner at all, so Different is used only when the cell has images)
+      if (r.chance(40)) c.asu = (r.chance(50) || st.cell.images.empty()) ? Asu::Same : Asu::Different;
       st.connections.push_back(c);
     }
   }
